@@ -77,6 +77,9 @@ func (t *loopTransport) Send(b []byte) ([]byte, error) {
 func c12EnvServer(res *world.Result, logf func(string, ...interface{}), h *world.Hasher) {
 	mux := multiplex.NewHandler()
 	svcNames := []string{"Svc", "Other", "svc_2"}
+	if simrt.Flip("env.empty-service-name", 0.15) {
+		svcNames[ch("env.empty-service-slot", 3)] = "" // a service may be registered under the empty name
+	}
 	handlers := map[string]*recHandler{}
 	ns := 1 + ch("env.services", 3)
 	// the multiplexer may be handed to the server before any service is registered with it
